@@ -12,11 +12,15 @@ import (
 	"strconv"
 	"testing"
 	"time"
+	"unsafe"
 
 	"github.com/ProjectSerenity/firefly/kernel"
 	"github.com/ProjectSerenity/firefly/kernel/device"
 	"github.com/ProjectSerenity/firefly/kernel/device/tty"
 	"github.com/ProjectSerenity/firefly/kernel/device/video/console"
+	"github.com/ProjectSerenity/firefly/kernel/device/video/console/font"
+	"github.com/ProjectSerenity/firefly/kernel/device/video/console/logo"
+	"github.com/ProjectSerenity/firefly/kernel/multiboot"
 	"github.com/ProjectSerenity/firefly/kernel/kfmt"
 )
 
@@ -33,13 +37,14 @@ import (
 // ---------------------------------------------------------------------------------------------
 
 type verifEvent struct {
-	kind int // 0 probe, 1 init, 2 attach, 3 setstate
+	kind int // 0 probe, 1 init, 2 attach, 3 setstate, 4 setlogo, 5 setfont (b: 1 = a font was supplied)
 	a, b int
 }
 
 type verifWorld struct {
-	events []verifEvent
-	ttys   map[int]*verifTTY
+	events    []verifEvent
+	ttys      map[int]*verifTTY
+	fontNames []string
 }
 
 type verifDrvSpec struct {
@@ -84,6 +89,87 @@ func (c *verifConsole) Write(ch byte, fg, bg uint8, x, y uint32)       {}
 func (c *verifConsole) Palette() color.Palette                         { return nil }
 func (c *verifConsole) SetPaletteColor(uint8, color.RGBA)              {}
 
+// consoles that support loadable fonts and/or logos (console.FontSetter / console.LogoSetter)
+type verifFontConsole struct{ verifConsole }
+
+func (c *verifFontConsole) SetFont(f *font.Font) {
+	ok := 0
+	if f != nil {
+		ok = 1
+	}
+	c.w.fontNames = append(c.w.fontNames, fontName(f))
+	c.w.events = append(c.w.events, verifEvent{5, c.spec.id, ok})
+}
+
+type verifLogoConsole struct{ verifConsole }
+
+func (c *verifLogoConsole) SetLogo(*logo.Image) { c.w.events = append(c.w.events, verifEvent{4, c.spec.id, 0}) }
+
+type verifFontLogoConsole struct{ verifConsole }
+
+func (c *verifFontLogoConsole) SetFont(f *font.Font) {
+	ok := 0
+	if f != nil {
+		ok = 1
+	}
+	c.w.fontNames = append(c.w.fontNames, fontName(f))
+	c.w.events = append(c.w.events, verifEvent{5, c.spec.id, ok})
+}
+func (c *verifFontLogoConsole) SetLogo(*logo.Image) {
+	c.w.events = append(c.w.events, verifEvent{4, c.spec.id, 0})
+}
+
+func fontName(f *font.Font) string {
+	if f == nil {
+		return ""
+	}
+	return f.Name
+}
+
+// verifConsoleID maps any of the mock console types to its driver id (-1 for anything else).
+func verifConsoleID(c interface{}) int {
+	switch vc := c.(type) {
+	case *verifConsole:
+		return vc.spec.id
+	case *verifFontConsole:
+		return vc.spec.id
+	case *verifLogoConsole:
+		return vc.spec.id
+	case *verifFontLogoConsole:
+		return vc.spec.id
+	}
+	return -1
+}
+
+// verifInstallCmdLine builds a multiboot2 information block (the way kernel/multiboot's tests lay theirs
+// out: 8-byte header, tags {type uint32, size uint32, payload} padded to 8 bytes, end tag) that holds
+// the given boot command line (no command-line tag at all when cmdline is empty) and installs it.
+var verifMbBlock []uint64 // keeps the block alive and 8-byte aligned
+
+func verifInstallCmdLine(cmdline string) {
+	var b []byte
+	le32 := func(v uint32) { b = append(b, byte(v), byte(v>>8), byte(v>>16), byte(v>>24)) }
+	le32(0) // total size, patched below
+	le32(0) // reserved
+	if cmdline != "" {
+		le32(1) // boot command line tag
+		le32(uint32(8 + len(cmdline) + 1))
+		b = append(b, cmdline...)
+		b = append(b, 0)
+		for len(b)%8 != 0 {
+			b = append(b, 0)
+		}
+	}
+	le32(0) // end tag
+	le32(8)
+	b[0], b[1], b[2], b[3] = byte(len(b)), byte(len(b)>>8), 0, 0
+	verifMbBlock = make([]uint64, (len(b)+7)/8+1)
+	dst := (*[1 << 16]byte)(unsafe.Pointer(&verifMbBlock[0]))[:len(b)]
+	copy(dst, b)
+	multiboot.SetInfoPtr(uintptr(unsafe.Pointer(&verifMbBlock[0])))
+	multiboot.VerifResetCmdLine()
+}
+
 type verifTTY struct {
 	verifBase
 	got      []byte
@@ -95,10 +181,7 @@ type verifTTY struct {
 func (t *verifTTY) Write(p []byte) (int, error) { t.got = append(t.got, p...); return len(p), nil }
 func (t *verifTTY) WriteByte(b byte) error      { t.got = append(t.got, b); return nil }
 func (t *verifTTY) AttachTo(c console.Device) {
-	id := -1
-	if vc, ok := c.(*verifConsole); ok {
-		id = vc.spec.id
-	}
+	id := verifConsoleID(c)
 	t.attached = append(t.attached, id)
 	t.w.events = append(t.w.events, verifEvent{2, t.spec.id, id})
 }
@@ -118,9 +201,40 @@ type verifLogOp struct {
 }
 
 type verifScenario struct {
-	pre, post []verifLogOp
-	drivers   []*verifDrvSpec
-	claimed   []int
+	fontOpt, logoOpt int // boot command line: consoleFont= none / one of the fonts / unknown ; consoleLogo= none / off / other
+	pre, post        []verifLogOp
+	drivers          []*verifDrvSpec
+	claimed          []int
+}
+
+// cmdLine renders the scenario's boot command line; wantFont is the font that must be used if it exists.
+func (sc *verifScenario) cmdLine() (line string, wantFont string) {
+	names := []string{"terminus8x16", "terminus10x18", "terminus14x28"}
+	parts := []string{}
+	switch {
+	case sc.fontOpt >= 1 && sc.fontOpt <= 3:
+		wantFont = names[sc.fontOpt-1]
+		if font.FindByName(wantFont) == nil {
+			wantFont = ""
+		}
+		parts = append(parts, "consoleFont="+names[sc.fontOpt-1])
+	case sc.fontOpt >= 4:
+		parts = append(parts, "consoleFont=no-such-font")
+	}
+	switch sc.logoOpt {
+	case 1:
+		parts = append(parts, "consoleLogo=off")
+	case 2:
+		parts = append(parts, "consoleLogo=on")
+	}
+	if sc.fontOpt == 0 && sc.logoOpt == 0 {
+		return "", ""
+	}
+	line = "quiet"
+	for _, p := range parts {
+		line += " " + p
+	}
+	return line, wantFont
 }
 
 func verifBytes(l []uint64) []byte {
@@ -148,6 +262,7 @@ func verifDecodeLogOps(cur *verifCur) []verifLogOp {
 func verifDecode(nums []uint64) *verifScenario {
 	cur := &verifCur{n: nums}
 	sc := &verifScenario{}
+	sc.fontOpt, sc.logoOpt = int(cur.Next()), int(cur.Next())
 	sc.pre = verifDecodeLogOps(cur)
 	n := int(cur.Next())
 	for i := 0; i < n; i++ {
@@ -155,8 +270,8 @@ func verifDecode(nums []uint64) *verifScenario {
 		d.order = int8(cur.Next())
 		d.probeOK = cur.Next() != 0
 		d.kind = int(cur.Next())
-		if d.kind > 2 {
-			d.kind = 2
+		if d.kind > 5 {
+			d.kind = 5
 		}
 		d.name = string(verifBytes(cur.List()))
 		d.major, d.minor, d.patch = uint16(cur.Next()), uint16(cur.Next()), uint16(cur.Next())
@@ -190,8 +305,7 @@ func verifRunLog(ops []verifLogOp) {
 
 // verifResetKernelLog empties the early ring buffer and makes it the output sink again.
 func verifResetKernelLog() {
-	kfmt.SetOutputSink(&bytes.Buffer{})
-	kfmt.SetOutputSink(nil)
+	kfmt.VerifResetEarlyBuffer()
 }
 
 type verifRun struct {
@@ -218,6 +332,12 @@ func verifExecute(sc *verifScenario, reference bool) *verifRun {
 		switch spec.kind {
 		case 0:
 			drv = &verifConsole{base}
+		case 3:
+			drv = &verifFontConsole{verifConsole{base}}
+		case 4:
+			drv = &verifLogoConsole{verifConsole{base}}
+		case 5:
+			drv = &verifFontLogoConsole{verifConsole{base}}
 		case 1:
 			t := &verifTTY{verifBase: base}
 			r.w.ttys[spec.id] = t
@@ -238,7 +358,10 @@ func verifExecute(sc *verifScenario, reference bool) *verifRun {
 	devices = managedDevices{}
 	strBuf.Reset()
 	device.VerifSetDrivers(list)
+	cmdline, _ := sc.cmdLine()
+	verifInstallCmdLine(cmdline)
 	defer func() {
+		verifInstallCmdLine("")
 		device.VerifSetDrivers(nil)
 		devices = managedDevices{}
 		verifResetKernelLog()
@@ -262,9 +385,7 @@ func verifExecute(sc *verifScenario, reference bool) *verifRun {
 		}
 	}
 	if c := devices.activeConsole; c != nil {
-		if vc, ok := c.(*verifConsole); ok {
-			r.activeCon = vc.spec.id
-		}
+		r.activeCon = verifConsoleID(c)
 	}
 	for _, d := range devices.activeDrivers {
 		id, ok := byDriver[d]
@@ -367,7 +488,7 @@ func TestVerifC16(t *testing.T) {
 		}
 
 		// ---------------- observation (compared with the model) ----------------
-		var probes, inits, attaches, states []uint64
+		var probes, inits, attaches, states, logos, fonts []uint64
 		for _, e := range run.w.events {
 			switch e.kind {
 			case 0:
@@ -378,6 +499,10 @@ func TestVerifC16(t *testing.T) {
 				attaches = append(attaches, uint64(e.a), uint64(e.b))
 			case 3:
 				states = append(states, uint64(e.a), uint64(e.b))
+			case 4:
+				logos = append(logos, uint64(e.a))
+			case 5:
+				fonts = append(fonts, uint64(e.a))
 			}
 		}
 		var obs []uint64
@@ -393,6 +518,10 @@ func TestVerifC16(t *testing.T) {
 		obs = append(obs, attaches...)
 		obs = append(obs, uint64(len(states)/2))
 		obs = append(obs, states...)
+		obs = append(obs, uint64(len(logos)))
+		obs = append(obs, logos...)
+		obs = append(obs, uint64(len(fonts)))
+		obs = append(obs, fonts...)
 		otherBytes := 0
 		if run.sinkTTY >= 0 {
 			got := run.w.ttys[run.sinkTTY].got
@@ -473,7 +602,7 @@ func TestVerifC16(t *testing.T) {
 				continue
 			}
 			wantActive = append(wantActive, s.id)
-			if s.kind == 0 && firstCon < 0 {
+			if (s.kind == 0 || s.kind >= 3) && firstCon < 0 {
 				firstCon = s.id
 				if firstTTY >= 0 {
 					linkAt = i
